@@ -6,7 +6,7 @@ Databases are lists of applied segments as in SnapFSDrv.
   create <h> <name> <index> <term>        → ok
   wfull <h> <db> <wals|-> <ok|short|badcrc>  → ok | err <kind>
   winc <h> <wals>                         → ok | err <kind>
-  close <h> | closeold <h>                → ok | err <kind>     (close: with the full-needed re-check)
+  close <h> | close@0 <h> | close@1 <h>   → ok | err <kind>     (close: current source; @0/@1 older levels)
   closerf <h>                             → err <kind>   (Close whose final rename fails)
   cancel <h>                              → ok
   setfull                                 → ok
@@ -17,6 +17,7 @@ Databases are lists of applied segments as in SnapFSDrv.
   due                                     → full | incremental
   ls                                      → names, `t` suffix for temporary
   open <name>                             → <db> | err <kind>
+  admissible <op …>                       → yes | no     (is the operation inside the side conditions `OpOK'` of C09's theorems?)
 -/
 import RqModel.Model.SnapCat
 import RqModel.Model.SnapFSDrv
@@ -46,8 +47,32 @@ def lsStr (fs : FS DB) : String :=
     (fs.dir n).map fun d => s!"{n}{if d.tmp then "t" else ""}"
   if ns.isEmpty then "-" else " ".intercalate ns
 
+def parseOp : List String → Option (COp DB)
+  | ["create", h, n, i, t] =>
+    match h.toNat?, n.toNat?, i.toNat?, t.toNat? with
+    | some h, some n, some i, some t => some (.create h n i t)
+    | _, _, _, _ => none
+  | ["wfull", h, db, ws, v] =>
+    match h.toNat?, optDbTok db, natsTok ws, verdictTok v with
+    | some h, some (some db), some ws, some v => some (.wfull h db ws v)
+    | _, _, _, _ => none
+  | ["winc", h, ws] =>
+    match h.toNat?, natsTok ws with
+    | some h, some ws => some (.winc h ws)
+    | _, _ => none
+  | ["crashclose", h, c] =>
+    match h.toNat?, cutTok c with
+    | some h, some c => some (.crashClose h c)
+    | _, _ => none
+  | ["reap", nn] => nn.toNat?.map .reap
+  | _ => none
+
 def step (d : DState) (line : String) : DState × String :=
   match words line with
+  | "admissible" :: rest =>
+    match parseOp rest with
+    | some op => (d, if okB d.s op then "yes" else "no")
+    | none => (d, "bad-op")
   | ["reset"] => ({}, "ok")
   | ["create", h, n, i, t] =>
     match h.toNat?, n.toNat?, i.toNat?, t.toNat? with
@@ -67,11 +92,15 @@ def step (d : DState) (line : String) : DState × String :=
     | _, _ => (d, "bad-op")
   | ["close", h] =>
     match h.toNat? with
-    | some h => let (s', o) := close true d.s h; ({ s := s' }, o)
+    | some h => let (s', o) := close 2 d.s h; ({ s := s' }, o)
     | none => (d, "bad-op")
-  | ["closeold", h] =>
+  | ["close@0", h] =>
     match h.toNat? with
-    | some h => let (s', o) := close false d.s h; ({ s := s' }, o)
+    | some h => let (s', o) := close 0 d.s h; ({ s := s' }, o)
+    | none => (d, "bad-op")
+  | ["close@1", h] =>
+    match h.toNat? with
+    | some h => let (s', o) := close 1 d.s h; ({ s := s' }, o)
     | none => (d, "bad-op")
   | ["closerf", h] =>
     match h.toNat? with
@@ -97,6 +126,7 @@ def step (d : DState) (line : String) : DState × String :=
         s!"{x.mt.id}:{x.mt.index}:{x.mt.term}:{if x.db.isSome then "F" else "I"}")))
     | .error e => (d, "err " ++ e)
   | ["due"] => (d, if fullDue d.s.fs then "full" else "incremental")
+  | ["flag"] => (d, if d.s.fs.fullNeeded then "set" else "clear")
   | ["ls"] => (d, lsStr d.s.fs)
   | ["open", n] =>
     match n.toNat? with
